@@ -23,7 +23,7 @@ func registerC15() {
 		Level: "exploration",
 		Rule: "every entry of the live lookup table (hook), every known message number and every member of the 17 file containers is examined; a case is one " +
 			"(message, field) entry (static agreement of entry, struct field type and constructor value) and, dynamically, one stream carrying exactly that field at profile size " +
-			"decoded under every container hosting the message (else Activity) and re-encoded when hosted; plus, per known message and hosting container, two streams in which the message arrives under a compressed timestamp header (zero-field definition; every other field defined and invalid): the carried time must land in the struct field the table gives for field 253 and nowhere else; and per entry a definition with each of the 17 base types (three sizes, both byte orders, header profile version at and above the library's own): rejected, or decoded and re-encoded without a panic; the same probe also as a repeat of the field number after a conforming entry in one definition: no panic in Decode or re-Encode; non-trivial: the entry exists and was compared",
+			"decoded under every container hosting the message (else Activity) and re-encoded when hosted; plus, per known message and hosting container, two streams in which the message arrives under a compressed timestamp header (zero-field definition; every other field defined and invalid) and then again under normal headers without a time: the carried time must land in the struct field the table gives for field 253 of the message under the compressed header and nowhere else; and per entry a definition with each of the 17 base types (three sizes, both byte orders, header profile version at and above the library's own): rejected, or decoded and re-encoded without a panic; the same probe also as a repeat of the field number after a conforming entry in one definition: no panic in Decode or re-Encode; non-trivial: the entry exists and was compared",
 		Assume: []string{
 			"the bundled SDK 21.40 workbook, read by the harness's own xlsx reader, is the independent source for field numbers and names; the 23 table entries newer than 21.40 are compared with ref/sdk21115.go, a list written down at development time and reviewed by hand against the SDK 21.115 profile (a pinned record, not a second derivation)",
 		},
@@ -464,6 +464,17 @@ func c15Compressed(c *lib.Ctx) {
 				}
 				off := byte(rng.Intn(32))
 				plan.Records = append(plan.Records, def, ref.Record{Local: def.Local, Compressed: true, TimeOffset: off, Data: data})
+				// round 13: the same definition once more under a normal header (and, in every
+				// other stream, from a second slot defined alike): this message carries no time,
+				// so every field - 253 included - must hold what the constructor gives, whatever
+				// the record before it received from its header
+				plan.Records = append(plan.Records, ref.Record{Local: def.Local, Data: data})
+				if (int(m)+int(ft))%2 == 0 {
+					def2 := def
+					def2.Local = 8 + byte(rng.Intn(4))
+					plan.Records = append(plan.Records, def2, ref.Record{Local: def2.Local, Data: data},
+						ref.Record{Local: def.Local, Compressed: true, TimeOffset: off, Data: data}, ref.Record{Local: def2.Local, Data: data})
+				}
 				b := plan.Bytes()
 				c.SetInflight(b)
 				ex, err := lib.Expect(plan, lib.ExpectOpts{})
